@@ -66,6 +66,33 @@ def dense_x86(rng, n):
     return bytes(out[:n])
 
 
+def x86_loop2(rng, n, now_pos):
+    """x86 code in which many convertible candidates sit 1..3 bytes after a rejected one (prev_mask 2/4/8) and the plain sum would put
+    00/FF into the byte the rejected candidate looked at, so that the inner loop of x86_code takes its second iteration."""
+    out = bytearray()
+    filler = lambda: rng.choice((0x90, 0x11, 0x7E, 0x80, 0x01, 0xFE, rng.randrange(1, 0xE8)))
+    while len(out) < n:
+        out += bytes(filler() for _ in range(rng.randrange(0, 7)))
+        k = rng.randrange(1, 4)
+        r = len(out)                       # rejected candidate here, its byte 4 is at r + 4 = q + 4 - k
+        q = r + k
+        pc5 = (now_pos + q + 5) & M32
+        for _ in range(20):
+            dest = rng.getrandbits(24)
+            sh = 8 * (3 - k)               # the inspected byte of the operand at q is operand byte 4-k, bits 8*(3-k)..
+            dest = (dest & ~(0xFF << sh)) | (rng.choice((0, 0xFF)) << sh)
+            src = (dest - pc5) & 0xFFFFFF
+            insp = (src >> sh) & 0xFF
+            if insp not in (0, 0xFF):
+                break
+        op = bytes([src & 0xFF, (src >> 8) & 0xFF, (src >> 16) & 0xFF, rng.choice((0, 0xFF))])
+        seq = bytearray([0xE8]) + bytes(filler() for _ in range(k - 1)) + bytes([rng.choice((0xE8, 0xE9))]) + op
+        # bytes r+1 .. r+4 are: fillers, the second opcode, and the first operand bytes; the rejected candidate's byte 4 is op[3-k],
+        # non-MS by construction (insp), so it is rejected because of its byte 4 and records prev_mask bit only.
+        out += seq
+    return bytes(out[:n])
+
+
 def dense_arm(rng, n):
     out = bytearray(rbytes(rng, rng.choice((0, 0, 1, 2, 3))))
     while len(out) < n:
@@ -203,8 +230,10 @@ DENSE = {"x86": dense_x86, "powerpc": dense_powerpc, "ia64": dense_ia64, "arm": 
          "sparc": dense_sparc, "arm64": dense_arm64, "riscv": dense_riscv}
 
 
-def gen_data(rng, fid, n, kind=None):
-    kind = kind or rng.choice(("dense", "dense", "dense", "rand", "edge"))
+def gen_data(rng, fid, n, kind=None, pos=0):
+    kind = kind or rng.choice(("dense", "dense", "dense", "rand", "edge") + (("loop2", "loop2") if fid == "x86" else ()))
+    if kind == "loop2":
+        return x86_loop2(rng, n, pos), kind
     if kind == "dense":
         return DENSE[fid](rng, n), kind
     if kind == "edge":
@@ -279,25 +308,29 @@ def gen_lens(rng, n):
 
 
 def gen_cases(ctx):
-    """Returns (both, conly): op lines answered by model and implementation, and op lines for the implementation only."""
+    """Returns (both, conly, monly): op lines answered by model and implementation, for the implementation only (property
+    oracles), and for the model only (branch statistics of the generated buffers, for the evidence)."""
     rng, quick = ctx.rng, ctx.quick()
-    both, conly = [], []
-    scale = 1 if quick else 8
+    both, conly, monly = [], [], []
+    scale = 3 if quick else 40
 
     for fid in FIDS:
         for _ in range(110 * scale):                 # single calls of *_code
             enc = rng.randrange(2)
             n = gen_size(rng, fid, quick)
-            data, kind = gen_data(rng, fid, n)
             np_ = gen_offset(rng, fid, aligned=rng.random() < 0.85)
+            data, kind = gen_data(rng, fid, n, pos=np_)
             pp = (np_ - rng.choice((5, 5, 1, 2, 3, 4, 6, 7, 0, rng.getrandbits(32)))) & M32 if fid == "x86" else 0
             both.append("code %s %d %d 0 %d %s" % (fid, enc, np_, pp, vlib.hexs(data)))
+            monly.append("cov %s %d %s" % (fid, np_, vlib.hexs(data)))
             ctx.count("code/%s/%s" % (fid, kind))
         for _ in range(45 * scale):                  # consecutive calls with carried state and now_pos
             enc = rng.randrange(2)
             n = gen_size(rng, fid, quick)
-            data, kind = gen_data(rng, fid, n)
-            both.append("codeseq %s %d %d %s %s" % (fid, enc, gen_offset(rng, fid), vlib.hexs(data), gen_lens(rng, n)))
+            off = gen_offset(rng, fid)
+            data, kind = gen_data(rng, fid, n, pos=off)
+            both.append("codeseq %s %d %d %s %s" % (fid, enc, off, vlib.hexs(data), gen_lens(rng, n)))
+            monly.append("cov %s %d %s" % (fid, off, vlib.hexs(data)))
             ctx.count("codeseq/%s" % fid)
         for _ in range(25 * scale):                  # one-shot API ("none" for the filters that have no such function)
             enc = rng.randrange(2)
@@ -308,21 +341,23 @@ def gen_cases(ctx):
         for _ in range(70 * scale):                  # simple_code() under slicing
             enc = rng.randrange(2)
             n = gen_size(rng, fid, quick)
-            data, kind = gen_data(rng, fid, n)
             wf = rng.random() < 0.85
             off = gen_offset(rng, fid, aligned=rng.random() < 0.93)
+            data, kind = gen_data(rng, fid, n, pos=off)
             both.append("stream %s %d %d %d %s %s" % (fid, enc, rng.randrange(2), off, vlib.hexs(data), gen_slices(rng, n, wf)))
             ctx.count("stream/%s/%s" % (fid, "wellformed" if wf else "early-finish-or-flush"))
         for _ in range(40 * scale):                  # the property on the implementation: round trip + slicing independence
             n = gen_size(rng, fid, quick)
-            data, kind = gen_data(rng, fid, n)
-            conly.append("rt %s %d %d %d %s" % (fid, rng.randrange(2), gen_offset(rng, fid), rng.getrandbits(40), vlib.hexs(data)))
+            off = gen_offset(rng, fid)
+            data, kind = gen_data(rng, fid, n, pos=off)
+            conly.append("rt %s %d %d %d %s" % (fid, rng.randrange(2), off, rng.getrandbits(40), vlib.hexs(data)))
             ctx.count("rt/%s" % fid)
         # candidates straddling every call boundary: a dense buffer cut at every position
         n = 6 * WINDOW[fid] + 3
-        for rep in range(1 if quick else 4):
-            data, _ = gen_data(rng, fid, n, "dense")
+        for rep in range(2 if quick else 12):
             off = gen_offset(rng, fid)
+            data, _ = gen_data(rng, fid, n, "loop2" if fid == "x86" and rep % 2 else "dense", pos=off)
+            monly.append("cov %s %d %s" % (fid, off, vlib.hexs(data)))
             for cut in range(n + 1):
                 both.append("codeseq %s %d %d %s %d,%d" % (fid, rep & 1, off, vlib.hexs(data), cut, n))
                 both.append("stream %s %d 1 %d %s %d:%d:0" % (fid, rep & 1, off, vlib.hexs(data), cut, n))
@@ -340,7 +375,7 @@ def gen_cases(ctx):
         return bytes(rng.choice((0, 0xFF, 0x80, 1)) for _ in range(n))
 
     for dist in range(1, 257):
-        for rep in range(1 if quick else 6):
+        for rep in range(2 if quick else 12):
             n = rng.choice((dist - 1, dist, dist + 1, 2 * dist, 2 * dist + 1, 255, 256, 257, 300, 513, 600, rng.randrange(0, 800)))
             enc = rng.randrange(2)
             data = ddata(n)
@@ -352,10 +387,10 @@ def gen_cases(ctx):
         both.append("dstream 1 0 %d 0102 -" % dist)
         both.append("dstream 0 1 %d 0102 -" % dist)
         ctx.count("delta/invalid-dist")
-    for _ in range(3 * scale):                       # long inputs: many wraps of the 256-byte history
+    for _ in range(2 * scale):                       # long inputs: many wraps of the 256-byte history
         both.append("deltax %d %d %s" % (rng.randrange(2), rng.choice((1, 2, 3, 4, 255, 256, rng.randrange(1, 257))), vlib.hexs(ddata(rng.randrange(3000, 9000)))))
         ctx.count("delta/long")
-    return both, conly
+    return both, conly, monly
 
 
 # ------------------------------------------------------------------------------------------------
@@ -672,7 +707,7 @@ def run(ctx):
     if not model_ok:
         mexe = None
     # K
-    both, conly = gen_cases(ctx)
+    both, conly, monly = gen_cases(ctx)
     c_out, fail = run_all(exe, both + conly, timeout=240 if ctx.quick() else 900)
     if fail is not None:
         ctx.violation("harness-abort", {"kind": "implementation aborted (sanitizer/assert/crash/hang)", "op": fail[0], "stderr": fail[1]}, True)
@@ -683,6 +718,14 @@ def run(ctx):
         if mfail is not None:
             ctx.obligation_broken("model driver xzm_c15 failed on an op", json.dumps({"op": mfail[0][:400], "stderr": mfail[1][-500:]}))
             m_out = None
+    if mexe and m_out is not None:
+        # branch statistics of the generated buffers (how often each decision of the filters was exercised)
+        cov_out, cfail = run_all(mexe, monly, timeout=240)
+        for res in cov_out or []:
+            for kv in res.split():
+                if "=" in kv:
+                    k, v = kv.split("=")
+                    ctx.count("branch/" + k, int(v))
     sysl = SysLzma()
     ctx.cov["third_opinion"] = getattr(sysl, "version", None)
     mism, third_used = 0, 0
